@@ -18,6 +18,7 @@ def written_names(stmts):
 
 class Loops:
     UNROLL_MAX = 40
+    _genloops = {}
 
     def concrete_items(self, it, st):
         if isinstance(it, SList):
@@ -30,6 +31,24 @@ class Loops:
         ex = self.ex
 
         def k(it, a):
+            if isinstance(it, SGen) and all(isinstance(x, ast.Pass) for x in s.body) and not s.orelse:
+                # `for _ in (f(x) for x in xs if c): pass`  (common.do): the generator's element expression is
+                # evaluated for its effect: the same as `for x in xs: if c: f(x)` in the generator's own scope
+                g = it.node.generators[0] if len(it.node.generators) == 1 else None
+                if g is not None and not g.is_async:
+                    body = [ast.Expr(value=it.node.elt)]
+                    for cond in reversed(g.ifs):
+                        body = [ast.If(test=cond, body=body, orelse=[])]
+                    loop = ast.For(target=g.target, iter=g.iter, body=body, orelse=[], lineno=getattr(s, 'lineno', 0),
+                                   col_offset=0)
+                    ast.fix_missing_locations(loop)
+                    gfr = ex.frames[it.fid]
+                    for n in ast.walk(g.target):
+                        if isinstance(n, ast.Name):
+                            gfr.locals_set = set(gfr.locals_set) | {n.id}
+                    key = ('genloop', id(it.node))
+                    loop = self._genloops.setdefault(key, loop)
+                    return self.for_loop(loop, a, gfr)
             items = self.concrete_items(it, a)
             if items is not None:
                 if len(items) > self.UNROLL_MAX:
